@@ -212,10 +212,12 @@ def replay(cases_path, profile="dev", elem="elem", cap=0, extra_args=(), per_cas
         # watchdog: a case that runs longer than per_case_timeout is a hang
         import threading
         state = {"t": time.time(), "killed": False}
+        stop = threading.Event()
 
         def watchdog():
             while p.poll() is None:
-                time.sleep(0.5)
+                if stop.wait(0.5):
+                    return
                 if time.time() - state["t"] > per_case_timeout or time.time() > t_end:
                     state["killed"] = True
                     p.kill()
@@ -244,6 +246,7 @@ def replay(cases_path, profile="dev", elem="elem", cap=0, extra_args=(), per_cas
                 ran += int(parts[1])
                 done = True
         p.wait()
+        stop.set()
         th.join(timeout=1)
         if done and p.returncode == 0:
             return ran, failures
